@@ -39,6 +39,7 @@ func init() {
 		NotDecided:  "exactness for ≤ 2M vectors and bottom-layer reachability as graph properties of concrete histories (observed: 'keep the M nearest' pruning and Flush can disconnect vertices — DESIGN section 5); only their structural preconditions are decided.",
 		Assumptions: []string{"container/heap keeps the Less-minimum at index 0", "roaring.Bitmap contracts"},
 	}, func(r *Run) {
+		ruleErrProp(r, "C12.ERRPROP", "hnsw_index")
 		k, err := kindByName(r.W, "hnsw")
 		if err != nil {
 			r.Unres("C12.KIND", "hnsw", err.Error())
@@ -64,6 +65,7 @@ func init() {
 		NotDecided:  "rank-wise monotonicity in p as a numeric statement (follows from the prefix structure); empty clusters' effect on recall.",
 		Assumptions: []string{"C18 (distances), C20 (k-means) hold", "sort.Slice orders by less"},
 	}, func(r *Run) {
+		ruleErrProp(r, "C13.ERRPROP", "ivf_index")
 		w := r.W
 		k, err := kindByName(w, "ivf")
 		if err != nil {
@@ -75,6 +77,7 @@ func init() {
 		ruleTopK(r, "C13.TOPK", k)
 		ruleProvenance(r, "C13.PROV", k)
 		ruleProbes(r, "C13", k)
+		ruleBuilders(r, "C13.BLD", k.SearchT)
 		ruleIVFAssign(r, "C13", k)
 		n := ruleArgmins(r, "C13.ARGMIN", []*ssa.Function{w.Fn("FindNearestCentroidIndex"), w.Fn("kmeansInternal")})
 		if n < 2 {
@@ -96,6 +99,7 @@ func init() {
 		NotDecided:  "the quantisation error bound, codebook quality.",
 		Assumptions: []string{"C18, C20 hold"},
 	}, func(r *Run) {
+		ruleErrProp(r, "C14.ERRPROP", "pq_index", "ivfpq_index")
 		w := r.W
 		rulePQ(r, "C14")
 		ruleSubspaceKernel(r, "C14.KERNEL")
@@ -108,6 +112,7 @@ func init() {
 			if err != nil {
 				continue
 			}
+			ruleBuilders(r, "C14.BLD", k.SearchT)
 			ruleScanADM(r, "C14.ADM", k, admSpec{DEL: true, SKIP: true, THR: true})
 			ruleResultOrder(r, "C14.ORD.less", k)
 			ruleTopK(r, "C14.TOPK", k)
